@@ -83,8 +83,9 @@ func (t *Thrown) AsValue() val.V {
 func GoErr(tag string) *Thrown { return &Thrown{Go: tag} }
 
 type Lookup struct {
-	Name string
-	Val  string // canonical text
+	Name    string
+	Val     val.V
+	Unbound bool
 }
 
 type abort struct{ why string }
@@ -203,11 +204,11 @@ func (in *Interp) Eval(x val.V, env *Env) (val.V, *Thrown) {
 	switch x.K {
 	case val.Sym:
 		v, ok := env.Get(x.S)
+		if in.LogVar != nil && in.LogVar(x.S) {
+			in.Lookups = append(in.Lookups, Lookup{Name: x.S, Val: v, Unbound: !ok})
+		}
 		if !ok {
 			return val.V{}, GoErr("unbound")
-		}
-		if in.LogVar != nil && in.LogVar(x.S) {
-			in.Lookups = append(in.Lookups, Lookup{x.S, val.Canon(v)})
 		}
 		return v, nil
 	case val.Vec:
